@@ -319,12 +319,27 @@ var node = fatchoy.MakeNodeID(3, 7)
 // request message, RPC flag, packet type, destination node, the request itself as body - and returns
 // its sequence number (0 = some field is wrong; a call never carries 0)
 func reqSeq(p fatchoy.IPacket) uint16 {
-	sv, isReq := p.Body().(*wrapperspb.StringValue)
-	if p.Command() != msgID || p.Flag()&fatchoy.PFlagRpc == 0 || p.Flag()&fatchoy.PFlagError != 0 ||
-		p.Type() != fatchoy.PTypePacket || p.Node() != node || !isReq || sv.GetValue() != "q" {
+	ok := false
+	switch b := p.Body().(type) {
+	case *wrapperspb.StringValue: // the registered request type
+		ok = p.Command() == msgID && b.GetValue() == "q"
+	case *wrapperspb.Int32Value: // a request type without a registered message id: command 0
+		ok = p.Command() == 0 && b.GetValue() == 7
+	}
+	if !ok || p.Flag()&fatchoy.PFlagRpc == 0 || p.Flag()&fatchoy.PFlagError != 0 ||
+		p.Type() != fatchoy.PTypePacket || p.Node() != node {
 		return 0
 	}
 	return p.Seq()
+}
+
+// request: every fourth call (number 2, 6, 10, ...) sends a message type that has no registered id -
+// the time-out path (ReapTimeout looks up the pairing ack of every expired call) must cope with it
+func request(cid int64) proto.Message {
+	if cid%4 == 2 {
+		return wrapperspb.Int32(7)
+	}
+	return wrapperspb.String("q")
 }
 
 func (h *hist) takeRequest(wait *syncCall) (uint16, bool) {
@@ -391,7 +406,7 @@ func (h *hist) exec(op Sx, r *rec) {
 			go func() {
 				atomic.StoreInt32(&sc.gid, int32(Goid()))
 				var ctx *qnet.RpcContext
-				p, _ := Catch(func() { ctx = h.cli.Call(node, wrapperspb.String("q")) })
+				p, _ := Catch(func() { ctx = h.cli.Call(node, request(cid)) })
 				if p || ctx == nil {
 					h.log(comp{cid, 0, -98, -98})
 				} else {
@@ -417,7 +432,7 @@ func (h *hist) exec(op Sx, r *rec) {
 			}()
 			seq, queued = h.takeRequest(sc)
 		} else {
-			Catch(func() { h.cli.AsyncCall(node, wrapperspb.String("q"), h.callback(cid)) })
+			Catch(func() { h.cli.AsyncCall(node, request(cid), h.callback(cid)) })
 			seq, queued = h.takeRequest(nil)
 		}
 		if queued && adj != 0 {
@@ -452,7 +467,9 @@ func (h *hist) exec(op Sx, r *rec) {
 	case 2:
 		h.cli.VerifSweep(h.at(op.At(1).Int64()))
 	case 3:
-		Catch(func() { b = int64(h.cli.ReapTimeout()) })
+		if p, _ := Catch(func() { b = int64(h.cli.ReapTimeout()) }); p {
+			b = -1 // the owner thread panicked inside ReapTimeout
+		}
 	case 4:
 		a, b = h.burst(op.At(1).AsInt())
 	}
